@@ -214,7 +214,17 @@ def hostile_bytes(item, ser, rng, seq, base="invoke"):
     elif item == "payload_proxy_shape":
         # (the location named in the proxy is one where somebody listens who never answers: whoever contacts it is kept waiting)
         px = {"__class__": "Pyro5.client.Proxy", "state": ["PYRO:obj@127.0.0.1:%d" % BLACKHOLE[0], [], [], [], "hello", None]}
-        which = rotate("proxyshape", [0, 1, 2, 3])
+        which = rotate("proxyshape", [0, 1, 2, 3, 4, 4])
+        if which == 4:
+            # a proxy (or a uri) as an ordinary argument, whose uri text is long and almost - not quite - well formed: telling that
+            # it is not must not take for ever
+            text = rotate("hardtext", ["PYRO:echo@[" + "a" * 100 + "!]:1", "PYRO:echo@[" + "1:" * 60 + "]:x", "PYRONAME:" + "n" * 3000 + "@" + "h" * 3000 + ":",
+                                       "PYROMETA:" + ",".join(["t"] * 500) + "@[::" + ":" * 80 + "]", "PYRO:" + "o" * 5000 + "@" + "[" * 50 + "]" * 50 + ":1"])
+            hard = rotate("hardkind", [{"__class__": "Pyro5.client.Proxy", "state": [text, [], [], [], "hello", None]},
+                                       {"__class__": "Pyro5.core.URI", "state": ["PYRO", "o", None, text, 1]}])
+            data = inv("target", "echo", [hard]) if base != "connect" else L.build(mtype, 0, seq, s.serializer_id,
+                                                                                      s.dumps({"handshake": hard, "object": "target"}))
+            return data, close
         if base == "connect":
             payload = s.dumps([px, {"handshake": px, "object": "target"}, {"handshake": "hello", "object": px}, px][which])
         elif ser == "serpent":
@@ -299,6 +309,7 @@ def run_scripts(scripts, servertype, timeout, seed, full=False):
             lab.base = len(lab.net.socks)
             lab.log = []
             sc.set_budget(6000)
+            util.set_marker("C05 script %s server=%s ser=%s" % ([("pre:" if st.get("pre") else "") + st.get("item", st["a"]) for st in script], servertype, ser))
             hang = False
             broken = False
             witness_ok = fresh_ok = True
